@@ -137,6 +137,28 @@ def explore_queries(res, spec, filters, mode, triples):
                 "unscheduled_observer_mirror", "observer-differs", sig=sig, spec=spec,
                 filters=filters, history=hist, observed=ov, expected=spec_observer_views(st),
             )
+        # an observer attached only now (mid-episode) must catch up with the
+        # schedule, and keep mirroring along every continuation
+        if hist and mode != "basic":
+            from job_shop_lib.dispatching import UnscheduledOperationsObserver
+
+            for c in [None] + ref.children(hist):
+                inst2, d2 = rebuild(hist)
+                late = UnscheduledOperationsObserver(d2)
+                h2 = hist
+                if c is not None:
+                    impl.dispatch(d2, *c)
+                    h2 = hist + (c,)
+                res.add("evaluations")
+                res.add("nontrivial")
+                res.add("transitions", 2)
+                ov2 = observer_views(late, inst2)
+                want_ov = spec_observer_views(ref.state(h2))
+                if ov2 != want_ov:
+                    res.violation(
+                        "unscheduled_observer_mirror", "late-attached-observer-differs", sig=sig,
+                        spec=spec, filters=filters, history=hist, then=c, observed=ov2, expected=want_ov,
+                    )
         key = st.canon()
         first = key not in seen_states
         seen_states.add(key)
